@@ -61,11 +61,18 @@ pub struct Ctx {
     /// mock_salts build: the salt queue the driver filled for the next Issue call, and a pair id for reproducibility runs
     pub mock_queue: Vec<String>,
     pub mock_pair: u64,
+    inflight: String,
 }
 impl Ctx {
     pub fn new(path: &str) -> Ctx {
         std::panic::set_hook(Box::new(|_| {}));
-        Ctx { out: std::io::BufWriter::new(std::fs::File::create(path).expect("trace file")), case: 0, events: 0, hexpect: String::new(), mock_queue: vec![], mock_pair: 0 }
+        Ctx { out: std::io::BufWriter::new(std::fs::File::create(path).expect("trace file")), case: 0, events: 0, hexpect: String::new(), mock_queue: vec![], mock_pair: 0, inflight: format!("{}.inflight", path) }
+    }
+    /// The call about to be made, kept in a side file: if the whole process dies (abort, stack overflow) or hangs, the
+    /// orchestrator attributes that outcome to this call.
+    pub fn begin(&mut self, api: &str, arg: &str) {
+        let _ = self.out.flush();
+        let _ = std::fs::write(&self.inflight, obj(&[("api", qs(api)), ("arg", qs(&arg.chars().take(4000).collect::<String>()))]));
     }
     pub fn emit(&mut self, line: String) {
         self.events += 1;
@@ -80,6 +87,7 @@ impl Ctx {
     pub fn finish(&mut self) {
         self.emit(obj(&[("ev", qs("EndRun")), ("cases", self.case.to_string())]));
         self.out.flush().unwrap();
+        let _ = std::fs::remove_file(&self.inflight);
     }
 }
 
@@ -161,6 +169,7 @@ pub fn issue(ctx: &mut Ctx, issuer: &mut SDJWTIssuer, a: &IssueArgs) -> Out<Stri
         q.extend(ctx.mock_queue.iter().cloned());
         q.len()
     };
+    ctx.begin("issuer.issue", &a.claims.to_string());
     let res = guard(|| issuer.issue_sd_jwt(claims, strat, jwk, decoy, fmt));
     #[cfg(feature = "mock")]
     let consumed = before - sd_jwt_rs::utils::SALTS.lock().map(|q| q.len()).unwrap_or(0);
@@ -199,6 +208,7 @@ pub fn issue(ctx: &mut Ctx, issuer: &mut SDJWTIssuer, a: &IssueArgs) -> Out<Stri
 
 pub fn holder_new(ctx: &mut Ctx, inst: &str, raw: &str, fmt: Fmt) -> Out<SDJWTHolder> {
     let r = raw.to_string();
+    ctx.begin("holder.new", raw);
     let res = guard(|| SDJWTHolder::new(r, fmt.lib()));
     let line = obj(&[("ev", qs("HolderNew")), ("inst", qs(inst)), ("fmt", qs(fmt.name())), ("in", msg::msg_json_raw(raw, fmt)), ("out", out_json(&res, vec![]))]);
     ctx.emit(line);
@@ -215,6 +225,7 @@ pub fn present(ctx: &mut Ctx, inst: &str, holder: &mut SDJWTHolder, fmt: Fmt, se
     let t0 = now();
     let s = sel.clone();
     let (n, a, k, al) = (kb.nonce.clone(), kb.aud.clone(), kb.key.as_deref().map(keys::enc), kb.alg.clone());
+    ctx.begin("holder.present", &Value::Object(sel.clone()).to_string());
     let res = guard(|| holder.create_presentation(s, n, a, k, al));
     let t1 = now();
     let mut extra = vec![];
@@ -292,6 +303,7 @@ pub fn verify(ctx: &mut Ctx, a: &VerifyArgs) -> Out<Value> {
     let raw = a.raw.to_string();
     let (aud, nonce, fmt) = (a.aud.map(String::from), a.nonce.map(String::from), a.fmt.lib());
     let t0 = now();
+    ctx.begin("verifier.new", a.raw);
     let res = guard(|| SDJWTVerifier::new(raw, cb, aud, nonce, fmt).map(|v| v.verified_claims));
     let t1 = now();
     let mut extra = vec![];
